@@ -145,6 +145,13 @@ mutual
     | _, _ => false
 end
 
+/-- the composer filed under `k`, if it is accepted: always (`accept`, the code as it is), or only
+when it was made for the type `T` itself (the repair) -/
+def acceptedUnder (accept : Bool) (r : Registry) (k : Bytes) (T : GoType) : Option Composer :=
+  match r.find k with
+  | some c => if accept || typeBeq c.rtype T then some c else none
+  | none => none
+
 /-- the result of `registerComposer`: the registry, the composer it returns, "panicked" -/
 structure RegOut where
   reg : Registry
@@ -170,9 +177,7 @@ this very type (struct literals all have the full name "/"). `walk` registers th
 def registerCore (guard : Bool) (walk : Option (Registry → GoType → RegOut)) (r : Registry) (t : GoType) : RegOut :=
   match derefT t with
   | .struct name pkg fs =>
-    match (match r.find (fullName name pkg) with
-           | some c => if !guard || typeBeq c.rtype (.struct name pkg fs) then some c else none
-           | none => none) with
+    match acceptedUnder (!guard) r (fullName name pkg) (.struct name pkg fs) with
     | some c => ⟨r, some c, false⟩                        -- already registered: no walk
     | none =>
       match indexType fuelI (.struct name pkg fs) with
@@ -397,9 +402,7 @@ there is none `c, _ = r.registerComposer(rv.Type(), nil)`. With the repair (`bar
 composer found under the bare name counts only when it was made for this very type. -/
 def composerFor (bareName : Bool) (f : Nat) (r : Registry) (name pkg : Bytes) (fs : List (FieldHdr × GoType)) :
     Option Composer × Registry :=
-  match (match r.find name with
-         | some c => if bareName || typeBeq c.rtype (.struct name pkg fs) then some c else none
-         | none => none) with
+  match acceptedUnder bareName r name (.struct name pkg fs) with
   | some c => (some c, r)
   | none =>
     match registerT (!bareName) f r (.struct name pkg fs) with
